@@ -22,7 +22,7 @@ MANIFEST = {
 }
 
 THEOREMS = {
-    "C01": ["Spsc.C01_reachable_safe", "Spsc.C01_fifo", "Spsc.C01_grant_fits", "Spsc.C01_wrap", "Spsc.wrap_refines",
+    "C01": ["Spsc.C01_reachable_safe", "Spsc.C01_fifo", "Spsc.C01_trace_fifo", "Spsc.C01_grant_fits", "Spsc.C01_wrap", "Spsc.wrap_refines",
             "Spsc.step_inv", "Spsc.step_safe", "Spsc.weak_wLoad_unsafe", "Spsc.weak_rLoad_unsafe",
             "Obligations.bounded_orders_ok", "Obligations.extraction_complete", "Obligations.C01_extracted"],
     "C09": ["Spsc.C09_drained_grants", "Spsc.drained_grants_of_inv", "Spsc.C09_batch_only_stalls",
